@@ -486,7 +486,7 @@ func ruleC14NestedWaits(c *Ctx) {
 			if call, ok := in.(*ssa.Call); ok && call.Common().StaticCallee() != nil && call.Common().StaticCallee().Name() == "exec" {
 				// receiver is not the function's own receiver/parameter query (recursion on a copy counts as nested too)
 				recv := NewTB().Of(call.Common().Args[0])
-				if strings.Contains(recv.String(), "Prepare(") {
+				if strings.Contains(recv.String(), "Prepare(") || strings.Contains(recv.String(), "CopyQuery(") {
 					nested = append(nested, call)
 				}
 			}
@@ -537,6 +537,38 @@ func ruleC14NestedWaits(c *Ctx) {
 				}
 			})
 			var why []string
+			// must-pass-through: on every path from the nested exec to a successful return the chaining goroutine is started
+			paths, werr := WalkFrom(f, call.Block(), nil, WalkCfg{MaxVisits: 1, MaxPaths: 3000})
+			if werr != nil {
+				why = append(why, werr.Error())
+			}
+			fei := errIdx(f)
+			for _, p := range paths {
+				if p.Exit != "return" || fei < 0 || !p.Ret[fei].Nil {
+					continue
+				}
+				passed, chained, handed := false, false, false
+				for _, e := range p.Effects {
+					if e.Kind == "call" && e.Instr == ssa.Instruction(call) {
+						passed = true
+					}
+					if !passed {
+						continue
+					}
+					if e.Kind == "go" {
+						chained = true
+					}
+					if e.Kind == "call" && e.Callee == "builtin:append" && len(e.Args) == 2 && strings.Contains(e.Args[1].String(), "postProcessors") {
+						handed = true
+					}
+				}
+				if passed && !chained {
+					why = append(why, "a success path after the nested exec skips the wait-group chaining (under "+p.String()+")")
+				}
+				if passed && !handed {
+					why = append(why, "a success path after the nested exec does not hand over the nested post-processors")
+				}
+			}
 			if !okPost {
 				why = append(why, "the nested query's post-processors are not handed to the parent")
 			}
